@@ -8,7 +8,10 @@ THEOREMS = ["PLS.C05_names_nodup", "PLS.C05_mem_available", "PLS.C05_pick_is_res
 RULE = ("generated workspaces (as C01); for every file: the per-file view (get_available_fixtures) is compared entry "
         "by entry with find_closest_definition for every fixture name, and resolve_fixture_for_file (outgoing calls) "
         "with the same; names must be unique. Pure cross-feature comparison of the implementation's own answers + "
-        "model correspondence + spec oracle. Non-trivial = a name with two or more definitions")
+        "model correspondence + spec oracle. Handler level: the real server over stdio, definition / hover / implementation / "
+        "prepareCallHierarchy at every second column of every usage line, outgoingCalls and inlay hints, each compared with "
+        "the Lean handler model and with each other (same file and line; hover `from` path and return type; outgoing "
+        "target = definition on the parameter). Non-trivial = a name with two or more definitions")
 
 
 def spec_by_name(s):
@@ -83,7 +86,7 @@ def cross(run, cases, ia, ma, sp):
 
 
 def run(tier, seed):
-    r = Run(PROP, MODULE, THEOREMS, tier, seed)
+    r = Run(PROP, MODULE, THEOREMS, tier, seed, need_server=True)
     if not r.prepare():
         return r.finish(RULE)
     n = 150 if tier == "quick" else 2500
@@ -110,6 +113,8 @@ def run(tier, seed):
     r.evaluations = len(ia)
     r.correspond(cases, ia, ma)
     cross(r, cases, ia, ma, sp)
+    from .. import wire
+    wire.c05_wire(r, tier)
     return r.finish(RULE)
 
 
